@@ -44,7 +44,7 @@ class RecSum:
     def __init__(self, name, param_sorts, term, sort=None):
         self.name = name
         self.term = term
-        self.sort = sort or z3.RealSort()
+        self.sort = sort if sort is not None else z3.RealSort()
         self.param_sorts = list(param_sorts)
         self.nparams = len(param_sorts)
         self._lifted = None
@@ -85,3 +85,17 @@ class RecSum:
         k = k if isinstance(k, z3.ExprRef) else z3.IntVal(k)
         params = [p if isinstance(p, z3.ExprRef) else z3.IntVal(p) for p in params]
         return z3.Implies(k >= 0, self(*params, k + 1) == self(*params, k) + self.term(*params, k))
+
+
+def monotone_lemma(sink, prefix, rs, nbound, hyps=()):
+    """For a RecSum with non-negative summands: a <= b  =>  S(p, a) <= S(p, b).
+    Emits the step obligation (term >= 0 for every index, under hyps) and returns the quantified
+    conclusion, which follows by induction on b - a (induction principle: trusted, named in the evidence)."""
+    ps = [z3.Const("mp!%s!%d" % (rs.name, i), s_) for i, s_ in enumerate(rs.param_sorts)]
+    k = z3.Int("mk!%s" % rs.name)
+    a, b = z3.Int("ma!%s" % rs.name), z3.Int("mb!%s" % rs.name)
+    z = z3.RealVal(0) if rs.sort == z3.RealSort() else z3.IntVal(0)
+    sink.add(prefix, "induction-step", list(hyps), z3.ForAll(ps + [k], z3.Implies(k >= 0, rs.term(*ps, k) >= z)),
+             meta={"label": "%s: every summand is >= 0 (step of the monotonicity induction)" % rs.name})
+    return z3.ForAll(ps + [a, b], z3.Implies(z3.And(a >= 0, a <= b), rs(*ps, a) <= rs(*ps, b)),
+                     patterns=[z3.MultiPattern(rs(*ps, a), rs(*ps, b))])
